@@ -390,7 +390,7 @@ Proof.
   intros R Hs Hk. unfold gstep in Hs. destruct (tstep c (pcs s t) e) as [p'|] eqn:Hts; [|discriminate].
   unfold ev_kind in Hk. apply Z.eqb_eq in Hk.
   destruct (pcs s t) eqn:Hpc; cbn [tstep] in Hts;
-    try (unfold ev_kind, ev_is, pend_seen in Hts; rewrite Hk in Hts; cbn in Hts; discriminate).
+    try (unfold ev_lock, ev_unlock, ev_reloop, ev_kind, ev_is, pend_seen in Hts; rewrite Hk in Hts; cbn in Hts; discriminate).
   - unfold ev_kind, ev_is in Hts. rewrite Hk in Hts. destruct (ck c); cbn in Hts; discriminate.
   - destruct (ev_kind e DVU_CALLOUT_BEGIN && (ea e =? prev)) eqn:X; [|discriminate]. apply andb_true_iff in X as [_ X].
     apply Z.eqb_eq in X. cbv beta iota zeta in Hs. injection Hs as <-. cbn. rewrite X.
@@ -412,17 +412,30 @@ Proof. intros R. apply (inv_reach c s R). Qed.
 
 (* a drain pass on an unsuspended, unlocked source with pending data is enabled and delivers the data *)
 Definition ev0 k ord off a b ok := mkEv k ord 0 off 8 a b ok.
-Definition drain_pass (v : Z) : list event :=
-  [ ev0 DVX_LOCK 0 0 0 0 1; ev0 DV_LOAD MO_RELAXED OFF_PEND v v 1; ev0 DV_XCHG MO_RELAXED OFF_PEND v 0 1;
+Definition drain_pass (old new v : Z) : list event :=
+  [ ev0 DVX_LOCK 0 0 old new 1; ev0 DV_LOAD MO_RELAXED OFF_PEND v v 1; ev0 DV_XCHG MO_RELAXED OFF_PEND v 0 1;
     ev0 DVU_CALLOUT_BEGIN 0 0 v 0 1 ].
-Lemma drain_delivers c s t v :
+Lemma gstep_lock c s t old new :
+  lock_commits (cself c) old new = true -> pcs s t = PIdle -> owner s = None -> susp s = 0 ->
+  gstep c s t (ev0 DVX_LOCK 0 0 old new 1) =
+  Some {| pend := pend s; cancelled := cancelled s; susp := susp s; rq := false; owner := Some t; pcs := upd (pcs s) t PD0;
+          latched := latched s; running := running s; merged := merged s; dropped := dropped s; delivered := delivered s |}.
+Proof.
+  intros L Hpc On S0. unfold gstep. rewrite Hpc. cbn [tstep].
+  set (e := ev0 DVX_LOCK 0 0 old new 1).
+  assert (E1 : ev_kind e DVU_CALL = false) by reflexivity.
+  assert (E2 : ev_lock c e = true) by (unfold ev_lock; subst e; unfold ev0; cbn [ea eb]; rewrite L; reflexivity).
+  rewrite E1, E2. cbv beta iota zeta. rewrite ?E1, ?E2, On, S0. reflexivity.
+Qed.
+Lemma drain_delivers c s t old new v :
+  lock_commits (cself c) old new = true ->
   pcs s t = PIdle -> owner s = None -> susp s = 0 -> pend s = v -> v <> 0 ->
-  exists s', grun c s (map (fun e => (t, e)) (drain_pass v)) = Some s' /\
+  exists s', grun c s (map (fun e => (t, e)) (drain_pass old new v)) = Some s' /\
              delivered s' = v :: delivered s /\ pend s' = 0 /\ pcs s' t = PInCall.
 Proof.
-  intros Hpc On S0 P N. unfold drain_pass. cbn [map grun].
+  intros L Hpc On S0 P N. unfold drain_pass. cbn [map grun].
   assert (Nb : (v =? 0) = false) by (apply Z.eqb_neq; exact N).
-  unfold gstep at 1. rewrite Hpc. cbn [tstep]. cbn. rewrite On, S0. cbn.
+  rewrite (gstep_lock c s t old new L Hpc On S0).
   unfold gstep at 1. cbn [pcs]. rewrite upd_same. cbn [tstep]. cbn. rewrite P, Z.eqb_refl. unfold pend_seen. cbn. rewrite Nb.
   unfold gstep at 1. cbn [pcs]. rewrite upd_same. cbn [tstep]. cbn. rewrite Z.eqb_refl.
   unfold latch_next. rewrite Nb. cbn.
